@@ -96,6 +96,21 @@ func c17FmapSlice(h *H) {
 	pool := elemPool(A, h.Sc, 4)
 	k := len(pool)
 	h.St.Pool = k
+	// for f : A -> A the next pool value is returned (not the identity: writing the
+	// results into the input's own array must show)
+	poolCanon := make([]string, k)
+	for j, g := range pool {
+		poolCanon[j] = Canon(g())
+	}
+	succ := func(c string) (reflect.Value, string) {
+		for j := range poolCanon {
+			if poolCanon[j] == c {
+				n := (j + 1) % k
+				return pool[n](), poolCanon[n]
+			}
+		}
+		return reflect.Value{}, ""
+	}
 	for li, idx := range append([][]int{nil}, allLists(k, envInt("VERIF_LISTLEN", 3))...) {
 		in := mkList(lt, pool, idx, li == 0)
 		before := Canon(in)
@@ -104,6 +119,9 @@ func c17FmapSlice(h *H) {
 			c := Canon(args[0])
 			log = append(log, c)
 			if B == A {
+				if v, _ := succ(c); v.IsValid() {
+					return []reflect.Value{v}
+				}
 				return []reflect.Value{args[0]}
 			}
 			return []reflect.Value{sentinelFor(B, fmt.Sprintf("%d|%s", len(log), c), h.Sc)}
@@ -127,6 +145,9 @@ func c17FmapSlice(h *H) {
 				var exp string
 				if B == A {
 					exp = want[i]
+					if _, sc := succ(want[i]); sc != "" {
+						exp = sc
+					}
 				} else {
 					exp = Canon(sentinelFor(B, fmt.Sprintf("%d|%s", i+1, want[i]), h.Sc))
 				}
